@@ -30,12 +30,16 @@ META = {
                    'functions the library calls (isoformat, hex, str, timestamp, b64encode) as computed by the real functions. '
                    'Instance-unchanged and id-disjointness are carried by the correspondence/direct predicates only (a pure model '
                    'cannot mutate). exclude/skip_defaults/skip_if/paths/catch-all are outside this model (C11, C08, C10). '
-                   'Dict keys that collide after dumping are not modelled (generators avoid them).'),
-    'rule': ('systematic: every leaf type (19) x every container position (15 contexts) to depth 3, packed into classes of <= 10 fields, '
-             'one conforming value per field (quick: a seed-rotated third of the depth-3 positions; thorough: all) + random class models '
-             '(quick 120, thorough 2500) x (key transform in {default,CAMEL,PASCAL,LISP,SNAKE,NONE}) x (marshal_date_time_as in '
-             '{unset,ISO_FORMAT,TIMESTAMP}). Non-trivial: the field type has at least one container/union/class layer or a non-JSON leaf. '
-             'Distinct: distinct (type label | value digest).'),
+                   'Dict keys that collide after dumping are not modelled (generators avoid them). CatchAll classes are checked by the direct '
+                   'predicates only. Histories are limited to the default key spelling: a nested class dumped alone caches its own spelling (open finding F10, C07).'),
+    'rule': ('systematic: every leaf type (19) x every container position (19 contexts incl. TypedDict optional keys, explicit and auto-assigned tagged unions) '
+             'to depth 3, packed into classes of <= 10 fields, one conforming value per field (quick: a seed-rotated third of the depth-3 positions; thorough: all) '
+             '+ random class models (quick 120, thorough 2500) + 30 sub-minute-offset cases + CatchAll classes (quick 30, thorough 300; direct predicates only), '
+             'x key transform {default,CAMEL,PASCAL,LISP,SNAKE,NONE} x marshal_date_time_as {unset,ISO_FORMAT,TIMESTAMP}. Four diversity axes run through every stream: '
+             'NAMES (30% from the wider grammar letter+digit*(_letter+digit*)*: one-letter words, digits at word ends), DECLARATIONS (aliases, tags, auto tags, distinct '
+             'Enum classes sharing a __name__, TypedDict NotRequired/Optional keys, CatchAll), VALUES (tzinfo zoo: naive, UTC, named fixed offsets incl. zero-offset GMT/WET, '
+             'negative, sub-minute, IANA zones; huge ints, nan/inf, unicode), HISTORIES (half of the class models with nested dataclasses dump every nested instance ON ITS OWN '
+             'before the owner\'s first dump). Non-trivial: the field type has at least one container/union/class layer or a non-JSON leaf. Distinct: distinct (type label | value digest).'),
     'trusted_base': ['model coq/model/CoreDump.v (dispatch by exact type, dataclass/namedtuple tests, isinstance scan, encoders, cls_asdict keys/tag)',
                      'harness/impl/core_rt.py prints real objects as Gallina terms and as the canonical text compared with the model'],
     'assumptions': ['stdlib leaf functions (isoformat, UUID.hex, str(Decimal/Path/timedelta), timestamp, b64encode) are oracles: their '
